@@ -30,8 +30,10 @@ RULE = (
     "from 1000-1100 hPa down to 1-300 hPa, linear / logarithmic / quadratic "
     "spacing, on the nested grids of 25, 97, 385, 1537 levels; plus "
     "arbitrary drawn non-negative vmr, T, z on irregular grids and rank-2 "
-    "input; column_relative_humidity for 1-5 (or more than levels) columns "
-    "along axis 0 / 1 / -1 with drawn T in 185-300 K and q = beta * q_sat.  heights: pressure2height on irregular decreasing pressure grids "
+    "input; column_relative_humidity for rank 1-4 input (square and "
+    "rectangular horizontal grids, level axis at every position, also "
+    "negative) with drawn T in 185-300 K that differs between the columns "
+    "and q = beta * q_sat.  heights: pressure2height on irregular decreasing pressure grids "
     "of 2-2000 levels with no / isothermal / arbitrary temperatures; the ISA "
     "table levels are enumerated.  Non-trivial = irregular grid or rank >= 2 "
     "or >= 100 levels (integrals, heights) / every analytic profile.  "
@@ -634,8 +636,26 @@ def check_columns(case, ctx):
 @st.composite
 def crh_cases(draw):
     N = draw(st.one_of(st.integers(2, 8), st.integers(2, 40)))
-    ncol = draw(st.sampled_from([0, 1, 2, 3, 5, N, N + 3]))
-    axis = draw(st.sampled_from([0, 0, 1, -1])) if ncol else 0
+    rank = draw(st.sampled_from([1, 2, 2, 3, 3, 3, 4]))
+    if rank == 2:
+        other = [draw(st.sampled_from([1, 2, 3, 5, N, N + 3]))]
+    elif rank >= 3:
+        # horizontal grids: square and rectangular, also equal to N
+        d = draw(st.sampled_from([2, 3, 4, N]))
+        if draw(st.booleans()):
+            other = [d] * (rank - 1)
+        else:
+            other = [d] + [draw(st.sampled_from([1, 2, 3, 5]))
+                           for _ in range(rank - 2)]
+            if draw(st.booleans()):
+                other = other[::-1]
+        while N * int(np.prod(other)) > 6000:
+            other[other.index(max(other))] = 2
+    else:
+        other = []
+    pos = draw(st.integers(0, rank - 1)) if draw(st.booleans()) else 0
+    axis = pos - rank if (rank > 1 and draw(st.integers(0, 2)) == 0) else pos
+    shape = other[:pos] + [N] + other[pos:]
     p0 = draw(st.floats(950e2, 1050e2, allow_nan=False))
     ratios = draw(st.lists(st.floats(0.8, 0.995, allow_nan=False),
                            min_size=N - 1, max_size=N - 1))
@@ -645,16 +665,16 @@ def crh_cases(draw):
     for i in range(1, N):
         if p[i] > p[i - 1] * (1 - 1e-6):
             p[i] = p[i - 1] * (1 - 1e-6)
-    tot = N * max(ncol, 1)
+    tot = int(np.prod(shape))
     pool_T = draw(st.lists(st.floats(185.0, 300.0, allow_nan=False),
-                           min_size=7, max_size=23))
+                           min_size=7, max_size=23, unique=True))
     pool_b = draw(st.lists(st.one_of(st.floats(0.0, 1.0, allow_nan=False),
                                      st.just(1.0)), min_size=5, max_size=13))
     a = draw(st.integers(1, 22))
     T = GS.tile(pool_T, tot, a, draw(st.integers(0, 22)), 0.0)
     beta = GS.tile(pool_b, tot, draw(st.integers(1, 12)),
                    draw(st.integers(0, 12)), 0.0)
-    return {"N": N, "ncol": ncol, "axis": axis, "p": [float(v) for v in p],
+    return {"shape": shape, "axis": axis, "p": [float(v) for v in p],
             "T": T, "beta": beta,
             "alpha": draw(st.floats(0.05, 1.0, allow_nan=False))}
 
@@ -662,57 +682,60 @@ def crh_cases(draw):
 def check_crh(case, ctx):
     from typhon.physics import column_relative_humidity
     C = consts()
-    N, ncol, axis = case["N"], case["ncol"], case["axis"]
+    shape = tuple(case["shape"])
+    rank = len(shape)
+    axis = case["axis"]
+    pos = axis % rank
+    N = shape[pos]
+    other = shape[:pos] + shape[pos + 1:]
     p = np.array(case["p"], dtype=float)
-    ctx.label("crh-rank-%d" % (1 if ncol == 0 else 2), "decreasing")
-    if ncol:
+    ctx.label("crh-rank-%d" % rank, "decreasing")
+    if rank >= 2:
+        ctx.nontrivial = True
         ctx.label("crh-axis-%d" % axis)
+        ncol = int(np.prod(other))
         ctx.label("crh-ncol==nlev" if ncol == N else
                   "crh-ncol>nlev" if ncol > N else "crh-ncol<nlev")
-        ctx.nontrivial = True
-
-    def arr(name):
-        a = np.array(case[name], dtype=float)
-        if ncol == 0:
-            return a
-        a = a.reshape(ncol, N)
-        return a.T.copy() if axis == 0 else a
-
-    T, beta = arr("T"), arr("beta")
-    Tc = T.reshape(N, -1) if axis == 0 else T.reshape(-1, N).T     # (N, ncol)
-    bc = beta.reshape(N, -1) if axis == 0 else beta.reshape(-1, N).T
-    es = e_mixed(Tc, C["Tt"])
-    pl = p.astype(LD)[:, None]
+    if rank >= 3:
+        ctx.label("crh-level-axis-%s" % (
+            "front" if pos <= rank - 3 else "last-two"))
+        ctx.label("crh-square-grid" if len(set(other)) == 1
+                  else "crh-rectangular-grid")
+    T = np.array(case["T"], dtype=float).reshape(shape)
+    beta = np.array(case["beta"], dtype=float).reshape(shape)
+    bshape = [1] * rank
+    bshape[pos] = N
+    pl = p.astype(LD).reshape(bshape)
+    es = e_mixed(T, C["Tt"])
     if not (es <= 0.3 * pl).all():
         raise AssertionError("generator: saturation pressure > 0.3 p")
-    qs_c = (LD(0.622) * es / (pl - LD(0.378) * es)).astype(float)
-    q_c = (qs_c.astype(LD) * bc.astype(LD)).astype(float)
+    qs = (LD(0.622) * es / (pl - LD(0.378) * es)).astype(float)
+    q = (qs.astype(LD) * beta.astype(LD)).astype(float)
+    Tcols = columns(T, pos)
+    if rank >= 2 and len({tuple(c) for c in Tcols.tolist()}) > 1:
+        ctx.label("crh-columns-differ")
 
-    def shaped(cols):
-        if ncol == 0:
-            return cols[:, 0].copy()
-        return cols.copy() if axis == 0 else cols.T.copy()
+    def crh(qq):
+        if rank == 1:
+            return column_relative_humidity(qq.copy(), p, T.copy())
+        return column_relative_humidity(qq.copy(), p, T.copy(), axis=axis)
 
-    out_shape = () if ncol == 0 else (ncol,)
-    sat = column_relative_humidity(shaped(qs_c), p, T.copy(), axis=axis) \
-        if ncol else column_relative_humidity(shaped(qs_c), p, T.copy())
-    ctx.check(np.shape(sat) == out_shape, "crh/shape", lambda: (
-        "q shape %r axis %r: result shape %r" % (T.shape, axis,
-                                                 np.shape(sat))))
-    sat = np.atleast_1d(np.asarray(sat, dtype=float))
+    sat = crh(qs)
+    ctx.check(np.shape(sat) == other, "crh/shape", lambda: (
+        "q shape %r axis %r: result shape %r" % (shape, axis, np.shape(sat))))
+    sat = np.asarray(sat, dtype=float).reshape(-1)
     ctx.check(bool((np.abs(sat - 1.0) <= 1e-12).all()), "crh/saturated-not-1",
               lambda: "q shape %r axis %r: CRH of saturated columns = %r" % (
-                  T.shape, axis, sat))
-    got = np.atleast_1d(np.asarray(column_relative_humidity(
-        shaped(q_c), p, T.copy(), axis=axis), dtype=float))
+                  shape, axis, sat[:12]))
+    got = np.asarray(crh(q), dtype=float).reshape(-1)
     al = case["alpha"]
-    got_a = np.atleast_1d(np.asarray(column_relative_humidity(
-        al * shaped(q_c), p, T.copy(), axis=axis), dtype=float))
-    for c in range(q_c.shape[1]):
-        ref = float(ld_trapz(q_c[:, c], p) / ld_trapz(qs_c[:, c], p))
+    got_a = np.asarray(crh(al * q), dtype=float).reshape(-1)
+    qc, qsc = columns(q, pos), columns(qs, pos)
+    for c in range(qc.shape[0]):
+        ref = float(ld_trapz(qc[c], p) / ld_trapz(qsc[c], p))
         ctx.check(abs(got[c] - ref) <= 1e-12 * ref + 1e-300, "crh/value",
                   lambda: "q shape %r axis %r column %d: CRH %r, int q dp / "
-                  "int q_s dp = %r" % (T.shape, axis, c, got[c], ref))
+                  "int q_s dp = %r" % (shape, axis, c, got[c], ref))
         ctx.check(abs(got_a[c] - al * got[c]) <= 1e-10 * al * got[c] + 1e-300,
                   "crh/not-linear-in-q", lambda: (
                       "column %d: CRH(%r q) = %r, %r CRH(q) = %r" % (
